@@ -24,7 +24,7 @@ import numpy
 from common import fr, frl, frm, unfrl, unfrm
 
 NEAR = 1 + Fraction(1, 2 ** 51)
-TEMPS = [None, 1e-8, 1e-5, 0.001, 0.01, 0.2, 1.0, 10.0]
+TEMPS = [None, 1e-8, 1e-5, 0.001, 0.01, 0.2, 1.0, 10.0, 100.0, 400.0, 2000.0]
 
 
 # ------------------------------------------------------------------ plumbing
